@@ -717,10 +717,12 @@ def value_attr(I, obj, name):
             return obj
         if name == "copy":
             return Builtin(name, lambda: Vec(list(obj.items), obj.col))
-        if name == "real":
-            return Vec(sp.re(to_expr(x)) for x in obj)
-        if name == "imag":
-            return Vec(sp.im(to_expr(x)) for x in obj)
+        if name in ("real", "imag"):
+            part = sp.re if name == "real" else sp.im
+
+            def parts(v):
+                return Vec((parts(x) for x in v.items), v.col) if isinstance(v, Vec) else part(to_expr(v))
+            return parts(obj)
         if name == "T":
             return obj
     if isinstance(obj, Closure):
@@ -1075,6 +1077,36 @@ def external(I, dotted):
     if mod == "operator" and name in ("add", "mul", "sub", "truediv"):
         opn = {"add": ast.Add, "mul": ast.Mult, "sub": ast.Sub, "truediv": ast.Div}[name]
         return Builtin(dotted, lambda a, b: binop(I, opn(), a, b))
+    if mod == "operator" and name in ("iadd", "imul", "isub", "itruediv"):
+        opn = {"iadd": ast.Add, "imul": ast.Mult, "isub": ast.Sub, "itruediv": ast.Div}[name]
+
+        def inplace(a, b):
+            if isinstance(a, list) and opn is ast.Add:
+                a.extend(list(b))
+                return a
+            if isinstance(a, Vec):
+                res = binop(I, opn(), a, b)
+                if isinstance(res, Vec) and len(res) == len(a):
+                    a.items[:] = res.items
+                    return a
+                return res
+            if isinstance(a, SymObj) and a.cls is not None:
+                m = a.cls.lookup("__" + name + "__")
+                if m is not _MISSING:
+                    return I.call(BoundMethod(m, a), [b], {})
+            return binop(I, opn(), a, b)
+        return Builtin(dotted, inplace)
+    if mod == "operator" and name in ("neg", "pos", "abs", "not_", "lt", "le", "gt", "ge", "eq", "ne"):
+        if name in ("lt", "le", "gt", "ge", "eq", "ne"):
+            cop = {"lt": ast.Lt, "le": ast.LtE, "gt": ast.Gt, "ge": ast.GtE, "eq": ast.Eq, "ne": ast.NotEq}[name]
+            return Builtin(dotted, lambda a, b: compare(I, cop(), a, b))
+        if name == "neg":
+            return Builtin(dotted, lambda a: binop(I, ast.Sub(), sp.Integer(0), a))
+        if name == "pos":
+            return Builtin(dotted, lambda a: a)
+        if name == "abs":
+            return I.builtins["abs"]
+        return Builtin(dotted, lambda a: sp.Not(truth(I, a)) if not isinstance(truth(I, a), bool) else (not truth(I, a)))
     if dotted == "itertools.chain":
         return Builtin(dotted, lambda *its: [x for it in its for x in iterate(I, it)])
     if dotted == "itertools.product":
@@ -1158,8 +1190,31 @@ def _math(I, name):
             e = to_expr(x)
             return not (e in I.arrays or any(s in I.arrays for s in e.free_symbols))
         return isscalar
-    if name == "ones_like":
-        return lambda x: sp.Integer(1)
+    if name == "array_equal":
+        def array_equal(a, b):
+            a = Vec(a) if isinstance(a, (list, tuple)) else a
+            b = Vec(b) if isinstance(b, (list, tuple)) else b
+            if _vshape(a) != _vshape(b):
+                return False
+            conds = []
+            for x, y in zip(_vflat(a) if isinstance(a, Vec) else [a], _vflat(b) if isinstance(b, Vec) else [b]):
+                r = compare(I, ast.Eq(), x, y)
+                if r is False:
+                    return False
+                if r is not True:
+                    conds.append(r)
+            return sp.And(*conds) if conds else True
+        return array_equal
+    if name in ("ones_like", "zeros_like"):
+        fill = sp.Integer(1 if name == "ones_like" else 0)
+
+        def like(x):
+            if isinstance(x, (list, tuple)):
+                x = Vec(x)
+            if isinstance(x, Vec):
+                return Vec(like(i) for i in x.items)
+            return fill          # scalar, or an array symbol standing for its generic element
+        return like
     if name == "sum":
         def npsum(x, axis=None):
             if isinstance(x, Vec) and x.items and isinstance(x.items[0], Vec) and axis is not None:
@@ -1210,6 +1265,8 @@ def _math(I, name):
 
     if name == "shape":
         return lambda x: tuple(sp.Integer(n) for n in _shape(x if not isinstance(x, (list, tuple)) else Vec(x)))
+    if name in ("ravel", "flatten"):
+        return lambda x: Vec(_flat(x if not isinstance(x, (list, tuple)) else Vec(x)))
     if name == "reshape":
         return lambda x, sh: _build(_flat(x), _toshape(sh))
     if name == "diag":
